@@ -492,6 +492,7 @@ func engineAL(w *World, tier string) *EngineResult {
 			r.violated("AL-flags", fnKey(argFn), "*T ≡ T + is_asterisk", "the `*` notation of an argument and is_asterisk do not reach the same flag store", w.pos(argFn.Pos()))
 		}
 	}
+	alPrec(w, r)
 	r.Stats["alias_rows"] = n
 	r.floor("alias_rows", 12)
 	r.finish()
